@@ -587,6 +587,8 @@ def main():
                 for lites in (False, True):
                     if not lites and mc5 not in (0x00, 0xFF):
                         continue
+                    if quick and rng.random() < 0.5 and not (mc01 in (0, 0xFFFF) and mc2 in (0, 0xFF) and mc5 in (0, 0xFF)):
+                        continue        # quick tier: all corner combinations, half of the others
                     mc = le16b(mc01) + bytes([mc2, rng.choice([0, 1]), 7, mc5]) + rng.choice([bytes(10), b'\xff' * 10])
                     init = {0x82: rbytes(16), 0x87: sim.key_to_ck_block(bkey), 0x88: mc, 0x86: le16b(rng.choice([0, 0xFFFF])) + bytes(14)}
                     pw = rng.choice([rbytes(16), rbytes(16), b'', None])
